@@ -85,6 +85,14 @@ func applyKnown(c *ChainW) int64 {
 	return excluded
 }
 
+// the quick tier keeps the writer's part short (a case costs 10-30 s on an idle machine, several times that under load)
+func writerOpsChoices() []int {
+	if evid.Thorough() {
+		return []int{60, 200, 240, 320, 400}
+	}
+	return []int{60, 200, 200, 240}
+}
+
 func drawChain(t *rapid.T) *Workload {
 	w := drawCommon(t, "chain")
 	c := &ChainW{
@@ -92,7 +100,7 @@ func drawChain(t *rapid.T) *Workload {
 		Stable:      rapid.SampledFrom([]int{24, 40, 72}).Draw(t, "stable"),
 		TxPer:       rapid.IntRange(1, 4).Draw(t, "txPer"),
 		Finality:    rapid.IntRange(0, 3).Draw(t, "finality") == 0,
-		WriterOps:   rapid.SampledFrom([]int{60, 200, 240, 320, 400}).Draw(t, "writerOps"),
+		WriterOps:   rapid.SampledFrom(writerOpsChoices()).Draw(t, "writerOps"),
 		MaxDepth:    rapid.IntRange(1, 12).Draw(t, "maxDepth"),
 		MaxChurn:    rapid.IntRange(6, 24).Draw(t, "maxChurn"),
 		WriterYield: rapid.IntRange(0, 2).Draw(t, "writerYield"),
@@ -102,7 +110,11 @@ func drawChain(t *rapid.T) *Workload {
 	if c.Finality && c.MaxDepth > 3 {
 		c.MaxDepth = 3
 	}
-	nr := rapid.IntRange(2, 10).Draw(t, "readers")
+	maxReaders := 8
+	if evid.Thorough() {
+		maxReaders = 10
+	}
+	nr := rapid.IntRange(2, maxReaders).Draw(t, "readers")
 	for i := 0; i < nr; i++ {
 		prof := rapid.SampledFrom([]string{"tip", "bulk", "rpc", "single", "mixed", "mixed"}).Draw(t, "profile")
 		rw := ReaderW{Ops: map[string]int{}, Yield: rapid.IntRange(0, 2).Draw(t, "yield"), Bulk: rapid.SampledFrom([]int{8, 24, 64}).Draw(t, "bulk")}
